@@ -27,7 +27,9 @@ Subset
   statements   compound, declarations, expression statements, if/else, while, for (as
                init; while (c) { body; inc }), a trailing `return;`.
   not (yet)    switch, do-while, ?:, && ||, break/continue/goto, structs, signed arithmetic,
-               pointer arithmetic with a non-constant offset, pointer assignment, recursion.
+               pointer arithmetic with a non-constant offset, pointer assignment, recursion; two operands of one
+               operator may both carry side effects only when these are the parameter/result scalars of
+               inlined calls.
 """
 import json, os, re, subprocess, sys
 
@@ -365,6 +367,26 @@ class Fn:
         """an lvalue read twice (x op= e, x++) must have a side-effect-free, stable index"""
         return True
 
+    def only_fresh_writes(self, pre):
+        """pre-statements that only assign scalars created by inlining a call (unique per call
+        site, so the other operand cannot mention them) and store nothing to memory: the order in
+        which two such operand preludes run does not matter (C leaves it unspecified)"""
+        for st in pre:
+            if st[0] == "A":
+                name = self.vars[st[1]][0]
+                if "." not in name or name.startswith("old."):
+                    return False
+            elif st[0] == "I":
+                if not (self.only_fresh_writes(st[2]) and self.only_fresh_writes(st[3])):
+                    return False
+            else:
+                return False
+        return True
+
+    def both_sides(self, pl, pr, op):
+        if pl and pr and not (self.only_fresh_writes(pl) and self.only_fresh_writes(pr)):
+            raise Unsupported("side effects on both sides of %s" % op)
+
     # ---- expressions
     def tx(self, e, void=False):
         """-> (pre statements, pure expression)"""
@@ -466,8 +488,7 @@ class Fn:
                 w, signed = self.uint_width(e)
                 pl, a = self.tx(l)
                 pr, b = self.tx(r)
-                if pl and pr:
-                    raise Unsupported("side effects on both sides of %s" % op)
+                self.both_sides(pl, pr, op)
                 if signed:
                     if a[0] == "C" and b[0] == "C":
                         return pl + pr, ("C", fold_signed(op, a[1], b[1]))
@@ -480,8 +501,7 @@ class Fn:
             if op in CMPOPS:
                 pl, a = self.tx(l)
                 pr, b = self.tx(r)
-                if pl and pr:
-                    raise Unsupported("side effects on both sides of %s" % op)
+                self.both_sides(pl, pr, op)
                 for side, x in ((l, a), (r, b)):
                     sw, ssigned = self.uint_width(side, "comparison operand")
                     if ssigned and x[0] not in ("C", "P", "!"):
